@@ -292,6 +292,10 @@ func c09Program(c *core.Ctx, i int64, src []byte, name, tag string, r *rand.Rand
 		c.Count("skipped_excluded_huge_result", 1)
 		return
 	}
+	if h := core.Hash(src); h%16 == 9 {
+		EarlierCall(h >> 4) // a library call of another kind first (see common.go)
+		c.Count("round_trips_after_an_earlier_call_of_another_kind", 1)
+	}
 	p, want, err := observeParsed(src, name)
 	c.Eval(1)
 	if err != nil {
@@ -671,6 +675,10 @@ func c13Dump(c *core.Ctx, dump []byte, src string, allCuts bool, r *rand.Rand) {
 	det := func(cut int, mode string) map[string]any {
 		return map[string]any{"source": core.Trunc(src, 1500), "dump_hex": core.Trunc(fmt.Sprintf("% x", dump), 4000), "cut": cut, "dump_len": len(dump), "reader": mode}
 	}
+	if h := core.Hash(dump); h%8 == 3 {
+		EarlierCall(h >> 3) // a library call of another kind first (see common.go)
+		c.Count("dumps_cut_after_an_earlier_call_of_another_kind", 1)
+	}
 	// the full dump must load (otherwise the cuts mean nothing)
 	if err, pan, _, _ := c13Load(dump, false); err != nil || pan != "" {
 		c.Inconclusive(fmt.Sprintf("the complete dump does not load (err=%v panic=%q): C09's matter", err, pan))
@@ -729,7 +737,7 @@ func c13Dump(c *core.Ctx, dump []byte, src string, allCuts bool, r *rand.Rand) {
 		}
 		if cut%5 == 0 {
 			// the interrupted write left a real file behind; it is handed to LoadProg as it is, with an empty name
-			fn := filepath.Join(c.Dir, fmt.Sprintf("c13-cut-%d.bcb", c.Shard))
+			fn := filepath.Join(c.Dir, fmt.Sprintf("c13-cut-%d-%d.bcb", c.Shard, os.Getpid())) // per process: a case confirmed alone runs next to the workers
 			if os.WriteFile(fn, dump[:cut], 0o644) == nil {
 				if f, ferr := os.Open(fn); ferr == nil {
 					var err error
@@ -737,6 +745,7 @@ func c13Dump(c *core.Ctx, dump []byte, src string, allCuts bool, r *rand.Rand) {
 					name := []string{"", "", "x.bcb"}[cut/5%3]
 					pan, stack := protect(func() { _, err = bcl.LoadProg(f, name, bcl.OptOutput(&out), bcl.OptLogger(&lg)) })
 					f.Close()
+					os.Remove(fn)
 					c.Eval(1)
 					m := fmt.Sprintf("*os.File, name %q", name)
 					if pan != "" {
